@@ -1,2 +1,72 @@
-(* C01 — stub: no theorems yet *)
-From Zap Require Import Base.Wire C01.Model C01.Proofs.
+(* C01 — the JSON encoder always emits one well-formed JSON object per entry, on one line.
+   Statements only; proofs in Enc/Refine*.v, Enc/Parse*.v, C01/Proofs.v. *)
+From Coq Require Import List ZArith Bool.
+From Coq.Strings Require Import Byte.
+Import ListNotations.
+From Zap Require Import Base.Wire Enc.Bytes Enc.Fields Enc.JsonEnc Enc.JsonParse Enc.WireEnc Enc.JsonAst Enc.Wf
+  Enc.Refine5 Enc.Parse1 Enc.Parse3 Enc.Parse4 C01.Model C01.Proofs.
+
+(* The byte-level encoder — separator logic driven by the LAST BYTE written,
+   namespaces as a counter saved/zeroed/restored around nested objects — prints
+   exactly the tree-level entry, for every EncoderConfig (any keys, nil / no-op /
+   built-in sub-encoders, any line ending), every With-chain, every entry and every
+   field tree (any nesting of objects, arrays, inline marshalers, namespaces left
+   open at any depth, marshaler errors, Stringer/error panics, reflection failures). *)
+Theorem C01_refines : forall c ctxs ent fs,
+  q_nil_caller_guard c = true -> forallb wf_flds ctxs = true -> wf_flds fs = true -> wf_entry ent = true ->
+  encode_entry c false (with_chain c false ctxs) ent fs =
+    Some (pv false (TObj (entry_members c ctxs ent fs)) ++ resolved_le c).
+Proof. exact json_refines. Qed.
+Print Assumptions C01_refines.
+
+(* ... and that output is exactly one syntactically valid JSON object (the RFC 8259
+   parser of Enc/JsonParse.v accepts it and returns an object), contains no byte
+   below 0x20, and is followed by the configured line ending.  [owf_*] / [rend_pre]
+   are the standard-library assumptions: every finite float text (strconv) and every
+   reflected value (encoding/json) in the case is one JSON value in a delimited
+   context; the executable monitors [wf_*] check them on every case. *)
+Theorem C01_wellformed : forall c ctxs ent fs,
+  q_nil_caller_guard c = true -> q_layout_escaped c = true ->
+  forallb wf_flds ctxs = true -> wf_flds fs = true -> wf_entry ent = true ->
+  owf_ctxs ctxs -> owf_flds fs -> rend_pre (t_rend (time_val ent)) ->
+  exists out,
+    encode_entry c false (with_chain c false ctxs) ent fs = Some out /\
+    line_obj (resolved_le c) out = Some (jv_mem (entry_members c ctxs ent fs)).
+Proof. exact entry_valid. Qed.
+Print Assumptions C01_wellformed.
+
+(* one line: with the default line ending the output holds exactly one line break, at its end *)
+Theorem C01_no_control_bytes : forall sp v, tpre v -> no_ctl (pv sp v) = true.
+Proof. exact tree_no_ctl. Qed.
+Print Assumptions C01_no_control_bytes.
+
+(* string escaping: whatever the bytes (invalid UTF-8, quotes, controls), the escaped
+   form is read back as the original with each invalid byte replaced by U+FFFD *)
+Theorem C01_escape_roundtrip : forall s X f, length (escape s) < f ->
+  p_string f (escape s ++ QUOTE :: X) [] = Some (sanitize s, X).
+Proof. exact string_roundtrip. Qed.
+Print Assumptions C01_escape_roundtrip.
+
+(* the two repaired defects, as statements about the pre-fix behaviour of the model *)
+Theorem C01_layout_orig_refuted :
+  exists out, line_of (cfg0 false true SActive) (ent0 false) = Some out /\ line_ok [NL] out = false.
+Proof. exact layout_orig_refuted. Qed.
+Print Assumptions C01_layout_orig_refuted.
+Theorem C01_nilcaller_orig_refuted : line_of (cfg0 true false SNil) (ent0 true) = None.
+Proof. exact nilcaller_orig_refuted. Qed.
+Print Assumptions C01_nilcaller_orig_refuted.
+
+(* wire level: the oracle the driver runs accepts what the model observes *)
+Theorem C01_wire : forall i, wf i = true ->
+  owf_ctxs (ec_ctxs (dec_case i)) -> owf_flds (ec_fs (dec_case i)) -> rend_pre (t_rend (time_val (ec_ent (dec_case i)))) ->
+  spec i (model i) = true.
+Proof. exact wire_thm. Qed.
+Print Assumptions C01_wire.
+
+(* non-vacuity: the fixed configurations satisfy the hypotheses and give valid lines *)
+Example C01_example_layout :
+  exists out, line_of (cfg0 true true SActive) (ent0 false) = Some out /\ line_ok [NL] out = true.
+Proof. exact layout_fixed_ok. Qed.
+Example C01_example_nilcaller :
+  exists out, line_of (cfg0 true true SNil) (ent0 true) = Some out /\ line_ok [NL] out = true.
+Proof. exact nilcaller_fixed_ok. Qed.
